@@ -11,7 +11,7 @@ def main():
     rc = 0
     for flags in ([], ["--release"]):
         t0 = time.time()
-        r = subprocess.run(["cargo", "build", "--offline"] + flags, cwd=os.path.join(VERIF, "harness"), env=ENV,
+        r = subprocess.run(["cargo", "build", "--offline"] + flags, cwd=os.path.join(VERIF, "harness"), env=dict(ENV, CARGO_TARGET_DIR=os.path.join(VERIF, "target")),
                            stdout=subprocess.PIPE, stderr=subprocess.STDOUT, text=True)
         print(f"harness build {flags}: rc={r.returncode} {time.time()-t0:.1f}s")
         if r.returncode != 0:
